@@ -34,3 +34,4 @@ def run(ctx, R):
     interpsem.rule_fp_exec(ctx, R, F1)
     portable.rule_endian(ctx, R)
     dsinit.rule_dsconst(ctx, R, F1)      # dataset item construction as the portable configuration compiles it (its prefetch / vector macros expand differently)
+    portable.rule_endian_pair(ctx, R)
